@@ -76,7 +76,7 @@ def run_variant(pid: str, v: dict, base: Path) -> dict:
         p = subprocess.run([sys.executable, str(core.VERIF / "check.py"), pid, "--tier", "quick"], capture_output=True, text=True, env=env, timeout=600)
         out = p.stdout + p.stderr
         fired = []
-        for m in re.finditer(r"^\s+\[(R\w+)\] (.*)$", out, re.M):
+        for m in re.finditer(r"^\s+\[(R[\w.]+)\] (.*)$", out, re.M):
             fired.append((m.group(1), m.group(2)))
         kind = v["kind"]
         if kind == "neutral":
